@@ -23,7 +23,6 @@ theorem C12_src_contribution_undirected (lc degSum res d : Rat) (h : degSum ≠ 
       Louvain.termUndirected (Src.C12.mUndirected degSum) res lc d := by
   unfold Src.C12.contribution Src.C12.normUndirected Src.C12.mUndirected Louvain.termUndirected
   field_simp
-  ring
 
 /-- the expressions as `Store.modularity` (Model/Community.lean) writes them -/
 theorem C12_src_model_expressions (lc m res o i nm degSum : Rat) :
